@@ -563,13 +563,18 @@ def run_harness(binary, sub, drivers, tag):
     index = {json.dumps(d["id"]): i for i, d in enumerate(drivers)}
     skip = 0
     died = 0
-    no_core = lambda: __import__("resource").setrlimit(__import__("resource").RLIMIT_CORE, (0, 0))
+    def no_core():
+        # no core files; a run that hangs (the crate only ever busy-waits) is stopped by its own CPU time, so that a loaded
+        # machine cannot turn a slow run into a "hang"; the wall-clock limit is only a backstop
+        import resource
+        resource.setrlimit(resource.RLIMIT_CORE, (0, 0))
+        resource.setrlimit(resource.RLIMIT_CPU, (HARNESS_TIMEOUT, HARNESS_TIMEOUT + 5))
     while skip < len(drivers):
         start = os.path.getsize(tfile) if os.path.exists(tfile) else 0
         try:
             p = subprocess.run([binary, sub, dfile, tfile, os.path.join(wd, "files"), str(skip)], stdout=subprocess.PIPE,
-                               stderr=subprocess.STDOUT, text=True, timeout=HARNESS_TIMEOUT, preexec_fn=no_core)
-            rc = p.returncode
+                               stderr=subprocess.STDOUT, text=True, timeout=HARNESS_TIMEOUT * 10, preexec_fn=no_core)
+            rc = -999 if p.returncode in (-24, -9) else p.returncode   # SIGXCPU (then SIGKILL): CPU limit reached
         except subprocess.TimeoutExpired:
             rc = -999
         if rc == 0:
